@@ -294,6 +294,11 @@ func (g *pgen) expr(typ string, env []variable, d int) string {
 			if len(vs) > 0 && r.Chance(60) {
 				return r.Pick(vs)
 			}
+			if r.Chance(4) {
+				// numbers at the edges of the widths a target might have: 8, 16, 31, 32, 53, 63 bits; time stamps
+				return r.Pick([]string{"255", "256", "65535", "65536", "2147483647", "2147483648", "4294967295", "4294967296", "1758800000000",
+					"9007199254740993", "9223372036854775807", "-2147483648", "-2147483649", "1000000", "0"})
+			}
 			return fmt.Sprint(r.Intn(20))
 		}
 		switch r.Intn(9) {
